@@ -48,10 +48,92 @@ def near_misses(rng, typ, key):
     return [k for k in out if k and k not in doc and all(ch.isalnum() or ch == "-" for ch in k)]
 
 
+def dropin_level(ctx):
+    """undocumented keys and drop-ins: a key stays visible to the check whatever a drop-in assigns to it (also the empty reset), a key that
+    only a drop-in holds is rejected too, and merging a drop-in appends its entries to the main file's (nothing is dropped)"""
+    rng = ctx.rng
+    # (a) merge_from itself: entries of the merged unit = entries of the main file followed by the drop-in's, section by section
+    cases, exp = [], []
+    for _ in range(ctx.volume(150, 2000)):
+        typ = rng.choice(list(docs.TYPES)); sec = docs.TYPES[typ][0]
+        keys = [rng.choice(["Image", "Netwrok", "Lable", "Label", "Exec", "Bogus"]) for _ in range(rng.randint(1, 3))]
+        vals = lambda: rng.choice(["v", "", "", '""', "a b"])
+        m = [(sec, k, vals()) for k in keys] + [("Service", "Restart", rng.choice(["no", ""]))]
+        d = [(rng.choice([sec, sec, "Service", "Unit"]), rng.choice(keys + ["Restart", "Other"]), vals()) for _ in range(rng.randint(1, 4))]
+        def text(es):
+            out, cur = "", None
+            for s_, k, v in es:
+                if s_ != cur:
+                    out += "[%s]\n" % s_; cur = s_
+                out += "%s=%s\n" % (k, v)
+            return out
+        cases.append(case_line("unit_ops", "merge", text(m), "merge", text(d)))
+        want = {}
+        for s_, k, v in m + d:
+            want.setdefault(s_, []).append((k, v))
+        exp.append((want, text(m), text(d)))
+    outs = vlib.run_impl(cases)
+    for o, (want, tm, td) in zip(outs, exp):
+        ctx.evaluations += 1
+        ctx.count("merge")
+        toks = o.split("\t")
+        got = {}
+        if toks[0] == "OK":
+            for name, es in vlib.parse_unit_tokens(toks, 2)[0]:
+                got.setdefault(name, []).extend(es)
+        if got != want:
+            ctx.failures.append({"op": "merge", "main": tm, "dropin": td, "what": "merging drop-in %r into %r gives entries %s, expected the main file's followed by the drop-in's: %s" % (td, tm, got, want), "class": None})
+    # (b) end to end with real drop-in files
+    files, expect = {}, {}
+    n = 0
+    for typ in docs.TYPES:
+        sec, base, suf = docs.TYPES[typ][0], docs.MINIMAL[typ], docs.SUFFIX[typ]
+        doc = docs.documented_keys(typ)
+        bad = rng.choice(near_misses(rng, typ, rng.choice(doc)) or ["Bogus"])
+        good = rng.choice([k for k in ("Label", "PodmanArgs", "GlobalArgs") if k in doc] or ["PodmanArgs"])
+        for kind in ("main_then_reset", "main_then_set", "dropin_only", "dropin_only_empty", "template_dropin", "documented_in_dropin", "two_dropins_reset"):
+            stem = "u%d" % n; n += 1
+            name = "%s.%s" % (stem, typ)
+            if kind == "main_then_reset":
+                files["u/" + name] = "[%s]\n%s%s=x\n" % (sec, base, bad); files["u/%s.d/10-r.conf" % name] = "[%s]\n%s=\n" % (sec, bad)
+            elif kind == "main_then_set":
+                files["u/" + name] = "[%s]\n%s%s=x\n" % (sec, base, bad); files["u/%s.d/10-r.conf" % name] = "[%s]\n%s=y\n" % (sec, bad)
+            elif kind == "dropin_only":
+                files["u/" + name] = "[%s]\n%s" % (sec, base); files["u/%s.d/10-r.conf" % name] = "[%s]\n%s=y\n" % (sec, bad)
+            elif kind == "dropin_only_empty":
+                files["u/" + name] = "[%s]\n%s" % (sec, base); files["u/%s.d/10-r.conf" % name] = "[%s]\n%s=\n" % (sec, bad)
+            elif kind == "template_dropin":
+                name = "%s@one.%s" % (stem, typ)
+                files["u/" + name] = "[%s]\n%s%s=x\n" % (sec, base, bad); files["u/%s@.%s.d/10-r.conf" % (stem, typ)] = "[%s]\n%s=\n" % (sec, bad)
+            elif kind == "two_dropins_reset":
+                files["u/" + name] = "[%s]\n%s" % (sec, base); files["u/%s.d/10-a.conf" % name] = "[%s]\n%s=y\n" % (sec, bad); files["u/%s.d/20-b.conf" % name] = "[%s]\n%s=\n" % (sec, bad)
+            else:
+                files["u/" + name] = "[%s]\n%s" % (sec, base); files["u/%s.d/10-r.conf" % name] = "[%s]\n%s=\n%s=--x\n" % (sec, good, good)
+            svc = name.rsplit(".", 1)[0] + suf + ".service"
+            expect[name] = (svc, kind != "documented_in_dropin", bad, kind)
+    with e2e.Box() as box:
+        e2e.make_tree(box.root, files)
+        rc, out, err = e2e.run_quadlet([box.path("u")], box.path("out"))
+        snap = e2e.snapshot(box.path("out"))
+        errt = err.decode("utf-8", "replace")
+        for name, (svc, rejected, bad, kind) in expect.items():
+            ctx.evaluations += 1
+            ctx.count("e2e_dropin:" + kind)
+            ctx.nontrivial.add(("dropin", name, kind))
+            lines = [l for l in errt.split("\n") if name in l and "ERROR" in l.upper()]
+            if rejected and (svc in snap or not any(("'%s'" % bad) in l for l in lines)):
+                ctx.failures.append({"op": "e2e_dropin", "files": {k: v for k, v in files.items() if name.split(".")[0].split("@")[0] + "." in k or name.split("@")[0] + "@" in k},
+                                     "what": "%s (%s): undocumented key %s %s; service %s; error lines: %s" % (name, kind, bad, "must be rejected", "written" if svc in snap else "not written", lines[:2]), "class": None})
+            if not rejected and svc not in snap:
+                ctx.failures.append({"op": "e2e_dropin", "what": "%s (%s): documented keys only, but no service: %s" % (name, kind, lines[:2]), "class": None})
+        if rc != 1:
+            ctx.failures.append({"op": "e2e_dropin", "what": "exit status %s with rejected units" % rc, "class": None})
+
+
 def run(ctx):
     ctx.rule = ("for each of the 7 unit types and each documented key: near-miss names (case changes, one-character insertions/deletions/transpositions, prefixes/suffixes, a Cyrillic "
                 "look-alike) and keys documented only for other types, each added with a plain, empty, empty-quoted or other value, last, first or twice, to a minimal unit of that type (also inside [Quadlet]); conversely random units built from documented "
-                "keys only; non-trivial = the near miss differs from a documented key by one edit or is documented for another type; distinct = distinct (type, key)")
+                "keys only; undocumented keys combined with drop-ins (reset or set in a drop-in, only in a drop-in, in a template's drop-in directory) end to end, and merge_from checked to append; non-trivial = the near miss differs from a documented key by one edit or is documented for another type; distinct = distinct (type, key)")
     rng = ctx.rng
     cases, meta = [], []
     allkeys = sorted({k for t in docs.TYPES for k in docs.documented_keys(t)})
@@ -131,6 +213,7 @@ def run(ctx):
         if not (rc == 1 and "good.service" in snap and "bad.service" not in snap and "bad2-volume.service" not in snap
                 and "'image'" in errt and "bad.container" in errt and "'Yaml'" in errt and "bad2.volume" in errt):
             ctx.failures.append({"op": "e2e", "what": "end to end: rc=%s files=%s stderr=%s" % (rc, sorted(snap), errt[-400:]), "class": None})
+    dropin_level(ctx)
     ctx.samples = [{"type": t, "key": k, "where": w} for t, k, _, w in meta[:10]]
     ctx.oblig("direct oracle: every near-miss key fails conversion with UnknownKey naming key and file; documented-only units convert; end to end no service is written and exit status is 1",
               not ctx.failures, "%d failures" % len(ctx.failures))
